@@ -295,6 +295,19 @@ func randomSplit(r *rng.R, n int) split {
 // genSplit: mostly threshold placements, sometimes an exact large total, sometimes unconstrained.
 func genSplit(r *rng.R, n int) split {
 	switch x := r.Intn(100); {
+	case x < 8:
+		// untouched equal powers, the signing subset has floor(2n/3) or floor(2n/3)+1 members
+		p := int64([]int{1, 1, 3, 10, 1000}[r.Intn(5)])
+		if r.Chance(0.3) {
+			p = 1 + r.Int63()%(maxTotal/int64(n))
+		}
+		k := 2*n/3 + r.Intn(2)
+		sp := split{Powers: make([]int64, n), InS: make([]bool, n), Dist: "equal-untouched"}
+		for i, j := range r.Perm(n) {
+			sp.Powers[i] = p
+			sp.InS[j] = i < k
+		}
+		return sp
 	case x < 62:
 		return sitOnThreshold(r, n, int64(r.Range(-5, 3)), 0)
 	case x < 80:
